@@ -263,6 +263,13 @@ class C12(BlockBase):
 # ============================================================================================ C13
 class C13(BlockBase):
     id = "C13"
+
+    def spec_reqs(self, case, impl):
+        k, v = parse_reply(impl[0])
+        if k != "ok":
+            return []
+        m = case.meta
+        return [req("spec", m["src"], m["ds"], m["de"], Cfg.from_json(m["cfg"]), extra=["C13", v])]
     rule = ("one case = clean on one block document without unwrap-blocks (spaces/tabs, blank and whitespace-only lines in any number "
             "around blocks, nesting in pending parents, multi-byte lines, with/without final newline; all (b,a) in 0..4 layouts); reference: "
             "(a) the non-blank output lines are the surviving non-blank input lines byte for byte, (b) an isolated removed block with b/a "
@@ -303,6 +310,12 @@ class C13(BlockBase):
         got = nonblank(ol)
         nt = any(l.removed for l in lay)
         tags = ["removed" if nt else "nothing-removed"]
+        # the Lean predicate of `c13_lines_eq`, evaluated on the implementation's output
+        if spec:
+            r = parse_reply(spec[0])[1]
+            tags.append("lean-hypothesis:" + ("outside" if r == "vacuous" else "met"))
+            if r == "false":
+                return {"fail": "C13-spec", "detail": "Spec.c13Holds = false on the implementation's output %r" % out, "nontrivial": nt, "tags": tags}
         if got != exp:
             bad = next(((g, e) for g, e in zip(got + [None] * len(exp), exp + [None] * len(got)) if g != e), (None, None))
             return {"fail": "C13-lines", "detail": "(a) non-blank line %r, expected %r" % bad, "nontrivial": nt, "tags": tags}
